@@ -18,9 +18,17 @@ import ModbusVerif.Lemmas.EncLemmas
      the log), `binary.*.Uint32/64 [handle]` reads the object the log entry at that position denotes
      (`wideObj`), `append` is answered with the opaque symbol `out` (the appended values are read off the log:
      `wideAppended`), the probes answer from the input bytes and the value of `i`.
-  4. the loops of `bytesToUint32s` / `bytesToUint64s`: one round (`dec32_round_*`, `dec64_round_*`), the exit
-     round, the round that runs off the end of the input, and all rounds by induction (`dec32_loop`,
-     `dec64_loop`).
+  4. the loops of `bytesToUint32s` / `bytesToUint64s` (instrumented terms `dec32Gs`, `dec64Gs`; `strip_dec32Gs`):
+     one complete round (`dec32_round`, `dec64_round`: every index, every four / eight bytes, both byte orders, every
+     word-order value), the exit round (`dec32_exit`), the round that runs off the end of the input (`dec32_short`),
+     all rounds by induction on the number of complete groups left (`dec32_loop`, `dec64_loop`); the model decoders
+     as "all complete groups" (`wideChunks32`, `bytesToUint32s_chunks`); the same loops with a byte order that is
+     neither constant (`dec32_round_invalid`, `dec32_loop_invalid`: ⌈len/4⌉ zeros, nothing read).
+  5. the float wrappers: `wideFloatWorld` (the `math` conversions are the identity on bit patterns), the
+     instrumented terms `decF32Gs`, `decF64Gs`, their loops (`decF32_loop`, `decF64_loop`) and prefixes
+     (`decF32_whole`).
+  All evaluation lemmas follow the conventions of Lemmas/GoEvalLemmas.lean (`by exact id rfl`, `go_evalW`);
+  `wide_dec_eval [...]` = `go_evalW` + the lemmas of the decoder world.
 -/
 set_option linter.unusedSimpArgs false
 set_option linter.unusedVariables false
@@ -139,5 +147,1143 @@ def putAns (put : Int → List Val) : List Val → Option (List Val)
   | _ => none
 theorem putAns_int (put : Int → List Val) (o : Val) (v : Int) : putAns put [o, .int v] = some (put v) := by
   exact id rfl
+
+/-- `Uint32` / `Uint64` of encoding/binary: the bounds check `_ = b[3]` (`b[7]`) first (a shorter slice
+    panics: `none`), then the bytes combined by `|` and `<<`:
+    `bigEndian.Uint32(b) = uint32(b[3]) | uint32(b[2])<<8 | uint32(b[1])<<16 | uint32(b[0])<<24` -/
+def beU32 : Bytes → Option Nat
+  | b0 :: b1 :: b2 :: b3 :: _ => some (b3.toNat ||| b2.toNat <<< 8 ||| b1.toNat <<< 16 ||| b0.toNat <<< 24)
+  | _ => none
+/-- `littleEndian.Uint32(b) = uint32(b[0]) | uint32(b[1])<<8 | uint32(b[2])<<16 | uint32(b[3])<<24` -/
+def leU32 : Bytes → Option Nat
+  | b0 :: b1 :: b2 :: b3 :: _ => some (b0.toNat ||| b1.toNat <<< 8 ||| b2.toNat <<< 16 ||| b3.toNat <<< 24)
+  | _ => none
+/-- `bigEndian.Uint64(b) = uint64(b[7]) | uint64(b[6])<<8 | … | uint64(b[0])<<56` -/
+def beU64 : Bytes → Option Nat
+  | b0 :: b1 :: b2 :: b3 :: b4 :: b5 :: b6 :: b7 :: _ =>
+    some (b7.toNat ||| b6.toNat <<< 8 ||| b5.toNat <<< 16 ||| b4.toNat <<< 24 ||| b3.toNat <<< 32 |||
+      b2.toNat <<< 40 ||| b1.toNat <<< 48 ||| b0.toNat <<< 56)
+  | _ => none
+/-- `littleEndian.Uint64(b) = uint64(b[0]) | uint64(b[1])<<8 | … | uint64(b[7])<<56` -/
+def leU64 : Bytes → Option Nat
+  | b0 :: b1 :: b2 :: b3 :: b4 :: b5 :: b6 :: b7 :: _ =>
+    some (b0.toNat ||| b1.toNat <<< 8 ||| b2.toNat <<< 16 ||| b3.toNat <<< 24 ||| b4.toNat <<< 32 |||
+      b5.toNat <<< 40 ||| b6.toNat <<< 48 ||| b7.toNat <<< 56)
+  | _ => none
+
+/-- `a | x << k` for `a < 2^k` is `x * 2^k + a` -/
+theorem lor_shl (a x k : Nat) (h : a < 2 ^ k) : a ||| x <<< k = x * 2 ^ k + a := by
+  rw [Nat.or_comm, ← Nat.shiftLeft_add_eq_or_of_lt h, Nat.shiftLeft_eq]
+
+/-- four bytes combined by `|` and `<<`, most significant `a` -/
+theorem lor4 (a b c d : Nat) (ha : a < 256) (hb : b < 256) (hc : c < 256) (hd : d < 256) :
+    d ||| c <<< 8 ||| b <<< 16 ||| a <<< 24 = ((a * 256 + b) * 256 + c) * 256 + d := by
+  have e1 := lor_shl d c 8 (by omega)
+  rw [e1]
+  have e2 := lor_shl (c * 2 ^ 8 + d) b 16 (by omega)
+  rw [e2]
+  have e3 := lor_shl (b * 2 ^ 16 + (c * 2 ^ 8 + d)) a 24 (by omega)
+  rw [e3]
+  omega
+
+/-- eight bytes combined by `|` and `<<`, most significant `a` -/
+theorem lor8 (a b c d e f g h : Nat) (ha : a < 256) (hb : b < 256) (hc : c < 256) (hd : d < 256)
+    (he : e < 256) (hf : f < 256) (hg : g < 256) (hh : h < 256) :
+    h ||| g <<< 8 ||| f <<< 16 ||| e <<< 24 ||| d <<< 32 ||| c <<< 40 ||| b <<< 48 ||| a <<< 56 =
+      ((((((a * 256 + b) * 256 + c) * 256 + d) * 256 + e) * 256 + f) * 256 + g) * 256 + h := by
+  have e1 := lor_shl h g 8 (by omega)
+  rw [e1]
+  have e2 := lor_shl (g * 2 ^ 8 + h) f 16 (by omega)
+  rw [e2]
+  have e3 := lor_shl (f * 2 ^ 16 + (g * 2 ^ 8 + h)) e 24 (by omega)
+  rw [e3]
+  have e4 := lor_shl (e * 2 ^ 24 + (f * 2 ^ 16 + (g * 2 ^ 8 + h))) d 32 (by omega)
+  rw [e4]
+  have e5 := lor_shl (d * 2 ^ 32 + (e * 2 ^ 24 + (f * 2 ^ 16 + (g * 2 ^ 8 + h)))) c 40 (by omega)
+  rw [e5]
+  have e6 := lor_shl (c * 2 ^ 40 + (d * 2 ^ 32 + (e * 2 ^ 24 + (f * 2 ^ 16 + (g * 2 ^ 8 + h))))) b 48 (by omega)
+  rw [e6]
+  have e7 := lor_shl (b * 2 ^ 48 + (c * 2 ^ 40 + (d * 2 ^ 32 + (e * 2 ^ 24 + (f * 2 ^ 16 + (g * 2 ^ 8 + h)))))) a 56
+    (by omega)
+  rw [e7]
+  omega
+
+theorem beU32_four (a b c d : Byte) : beU32 [a, b, c, d] = some (Enc.mk32 a b c d).toNat := by
+  show some _ = some _
+  rw [EncLemmas.toNat_mk32, lor4 _ _ _ _ a.isLt b.isLt c.isLt d.isLt]
+theorem leU32_four (a b c d : Byte) : leU32 [a, b, c, d] = some (Enc.mk32 d c b a).toNat := by
+  show some _ = some _
+  rw [EncLemmas.toNat_mk32, lor4 _ _ _ _ d.isLt c.isLt b.isLt a.isLt]
+theorem beU64_eight (a b c d e f g h : Byte) :
+    beU64 [a, b, c, d, e, f, g, h] = some (Enc.mk64 a b c d e f g h).toNat := by
+  show some _ = some _
+  rw [EncLemmas.toNat_mk64, lor8 _ _ _ _ _ _ _ _ a.isLt b.isLt c.isLt d.isLt e.isLt f.isLt g.isLt h.isLt]
+theorem leU64_eight (a b c d e f g h : Byte) :
+    leU64 [a, b, c, d, e, f, g, h] = some (Enc.mk64 h g f e d c b a).toNat := by
+  show some _ = some _
+  rw [EncLemmas.toNat_mk64, lor8 _ _ _ _ _ _ _ _ h.isLt g.isLt f.isLt e.isLt d.isLt c.isLt b.isLt a.isLt]
+
+/-! ### 3. the world of the decoders -/
+
+/-- is the value an integer -/
+def valIsInt : Val → Bool
+  | .int _ => true
+  | _ => false
+
+/-- the bytes of a list of `byte` values (`none`: some value is not an integer); `.int v` stands for the byte
+    `BitVec.ofInt 8 v` (values of Go type `byte` are in range) -/
+def bytesOfVals : List Val → Option Bytes
+  | [] => some []
+  | .int v :: r => (bytesOfVals r).map (BitVec.ofInt 8 v :: ·)
+  | _ :: _ => none
+
+theorem bytesOfVals_nil : bytesOfVals [] = some [] := by exact id rfl
+theorem bytesOfVals_cons_byte (b : Byte) (r : List Val) :
+    bytesOfVals (.int (b.toNat : Int) :: r) = (bytesOfVals r).map (b :: ·) := by
+  show (bytesOfVals r).map (BitVec.ofInt 8 (b.toNat : Int) :: ·) = _
+  rw [byteOfInt_toNat]
+
+/-- the object of `in[lo:hi]` for the input `bs`: Go panics unless `0 ≤ lo ≤ hi ≤ cap(in)`; convention
+    `cap(in) = len(in)` (as in Model/Encoding.lean) -/
+def sliceObj (bs : Bytes) : List Val → Option Bytes
+  | [_, .int lo, .int hi] =>
+    if 0 ≤ lo ∧ lo ≤ hi ∧ hi ≤ (bs.length : Int) then some ((bs.drop lo.toNat).take (hi.toNat - lo.toNat))
+    else none
+  | _ => none
+
+theorem sliceObj_split (pre mid rest : Bytes) (o : Val) :
+    sliceObj (pre ++ mid ++ rest) [o, .int (pre.length : Int), .int ((pre.length + mid.length : Nat) : Int)]
+      = some mid := by
+  have h : (0 : Int) ≤ (pre.length : Int) ∧ (pre.length : Int) ≤ ((pre.length + mid.length : Nat) : Int) ∧
+      ((pre.length + mid.length : Nat) : Int) ≤ ((pre ++ mid ++ rest).length : Int) := by
+    simp only [List.length_append]; omega
+  simp only [sliceObj]
+  rw [if_pos h]
+  simp only [Int.toNat_natCast, Nat.add_sub_cancel_left, List.append_assoc, List.drop_left, List.take_left]
+
+theorem sliceObj_short (bs : Bytes) (o : Val) (lo hi : Nat) (h : bs.length < hi) :
+    sliceObj bs [o, .int (lo : Int), .int (hi : Int)] = none := by
+  have h' : ¬ ((0 : Int) ≤ (lo : Int) ∧ (lo : Int) ≤ (hi : Int) ∧ (hi : Int) ≤ (bs.length : Int)) := by omega
+  simp only [sliceObj, h', ↓reduceIte]
+
+/-- the byte string a log entry denotes: `slice` a part of the input, `bytes` its arguments -/
+def wideObjOfCall (bs : Bytes) (c : String × List Val) : Option Bytes :=
+  if c.1 = "slice" then sliceObj bs c.2 else if c.1 = "bytes" then bytesOfVals c.2 else none
+
+theorem wideObjOfCall_slice (bs : Bytes) (args : List Val) :
+    wideObjOfCall bs ("slice", args) = sliceObj bs args := by exact id rfl
+theorem wideObjOfCall_bytes (bs : Bytes) (args : List Val) :
+    wideObjOfCall bs ("bytes", args) = bytesOfVals args := by exact id rfl
+
+/-- the object a handle value denotes in a log -/
+def wideObj (bs : Bytes) (cs : Calls) : Val → Option Bytes
+  | .int h => if 0 ≤ h then (cs[h.toNat]?).bind (wideObjOfCall bs) else none
+  | _ => none
+
+theorem wideObj_snoc (bs : Bytes) (cs : Calls) (c : String × List Val) :
+    wideObj bs (cs ++ [c]) (.int (cs.length : Int)) = wideObjOfCall bs c := by
+  simp only [wideObj, Int.natCast_nonneg, ↓reduceIte, Int.toNat_natCast, List.getElem?_concat_length,
+    Option.bind_some]
+
+/-- `in[lo:hi]`: a new handle when the bounds are fine, a panic (`none`) otherwise -/
+def sliceAnsW (bs : Bytes) (h : Nat) (args : List Val) : Option (List Val) :=
+  (sliceObj bs args).map (fun _ => [.int (h : Int)])
+/-- `[]byte{a, b, …}`: a new handle when every element has a value -/
+def bytesAnsW (h : Nat) (args : List Val) : Option (List Val) :=
+  if args.all valIsInt = true then some [.int (h : Int)] else none
+/-- `binary.….Uint32(b)` / `Uint64(b)`: the transcription `rd` on the object of the handle -/
+def uintAns (rd : Bytes → Option Nat) (obj : Option Bytes) : Option (List Val) :=
+  (obj.bind rd).map (fun (n : Nat) => [Val.int (n : Int)])
+/-- `append(out, v)`: answered with the opaque slice when `v` has a value -/
+def appendAnsW : List Val → Option (List Val)
+  | [_, .int _] => some [.sym "out"]
+  | _ => none
+
+theorem sliceAnsW_some (bs h args b) (hs : sliceObj bs args = some b) :
+    sliceAnsW bs h args = some [.int (h : Int)] := by simp only [sliceAnsW, hs, Option.map_some]
+theorem sliceAnsW_none (bs h args) (hs : sliceObj bs args = none) : sliceAnsW bs h args = none := by
+  simp only [sliceAnsW, hs, Option.map_none]
+theorem bytesAnsW_int4 (h : Nat) (a b c d : Int) :
+    bytesAnsW h [.int a, .int b, .int c, .int d] = some [.int (h : Int)] := by exact id rfl
+theorem bytesAnsW_int8 (h : Nat) (a b c d e f g i : Int) :
+    bytesAnsW h [.int a, .int b, .int c, .int d, .int e, .int f, .int g, .int i] = some [.int (h : Int)] := by
+  exact id rfl
+/-- the second element has no value (index out of range) -/
+theorem bytesAnsW_unk (h : Nat) (a : Val) (r : List Val) : bytesAnsW h (a :: .unk :: r) = none := by
+  cases a <;> simp [bytesAnsW, valIsInt]
+theorem uintAns_some (rd : Bytes → Option Nat) (b : Bytes) (n : Nat) (h : rd b = some n) :
+    uintAns rd (some b) = some [.int (n : Int)] := by simp only [uintAns, Option.bind_some, h, Option.map_some]
+theorem appendAnsW_int (o : Val) (v : Int) : appendAnsW [o, .int v] = some [.sym "out"] := by exact id rfl
+
+/-- the leaf `in[i+k]` for the VALUE of `i`: the byte at that position, `unk` outside the input (Go: index out
+    of range panic when it is read) -/
+def probeAt (bs : Bytes) (i : Val) (k : Nat) : Val :=
+  match i with
+  | .int v => if 0 ≤ v then (match bs[v.toNat + k]? with | some b => byteVal b | none => .unk) else .unk
+  | _ => .unk
+
+theorem probeAt_some {bs : Bytes} {j k : Nat} {b : Byte} (h : bs[j + k]? = some b) :
+    probeAt bs (.int (j : Int)) k = .int (b.toNat : Int) := by
+  simp only [probeAt, Int.natCast_nonneg, ↓reduceIte, Int.toNat_natCast, h, byteVal]
+theorem probeAt_none {bs : Bytes} {j k : Nat} (h : bs[j + k]? = none) :
+    probeAt bs (.int (j : Int)) k = .unk := by
+  simp only [probeAt, Int.natCast_nonneg, ↓reduceIte, Int.toNat_natCast, h]
+
+def probe4 (bs : Bytes) (i : Val) : List Val := [probeAt bs i 0, probeAt bs i 1, probeAt bs i 2, probeAt bs i 3]
+def probe8 (bs : Bytes) (i : Val) : List Val :=
+  [probeAt bs i 0, probeAt bs i 1, probeAt bs i 2, probeAt bs i 3,
+   probeAt bs i 4, probeAt bs i 5, probeAt bs i 6, probeAt bs i 7]
+
+/-- the world the decoders run in, for the input bytes `bs` -/
+def wideWorld (bs : Bytes) : World := fun cs f args =>
+  if f = "slice" then sliceAnsW bs cs.length args
+  else if f = "bytes" then bytesAnsW cs.length args
+  else if f = "binary.BigEndian.Uint32" then uintAns beU32 (wideObj bs cs (args.headD .unk))
+  else if f = "binary.LittleEndian.Uint32" then uintAns leU32 (wideObj bs cs (args.headD .unk))
+  else if f = "binary.BigEndian.Uint64" then uintAns beU64 (wideObj bs cs (args.headD .unk))
+  else if f = "binary.LittleEndian.Uint64" then uintAns leU64 (wideObj bs cs (args.headD .unk))
+  else if f = "append" then appendAnsW args
+  else if f = "#in[i+0..3]" then some (probe4 bs (args.headD .unk))
+  else if f = "#in[i+0..7]" then some (probe8 bs (args.headD .unk))
+  else none
+
+section world
+variable (bs : Bytes) (cs : Calls) (args : List Val)
+theorem wideWorld_slice : wideWorld bs cs "slice" args = sliceAnsW bs cs.length args := by exact id rfl
+theorem wideWorld_bytes : wideWorld bs cs "bytes" args = bytesAnsW cs.length args := by exact id rfl
+theorem wideWorld_be32 : wideWorld bs cs "binary.BigEndian.Uint32" args =
+    uintAns beU32 (wideObj bs cs (args.headD .unk)) := by exact id rfl
+theorem wideWorld_le32 : wideWorld bs cs "binary.LittleEndian.Uint32" args =
+    uintAns leU32 (wideObj bs cs (args.headD .unk)) := by exact id rfl
+theorem wideWorld_be64 : wideWorld bs cs "binary.BigEndian.Uint64" args =
+    uintAns beU64 (wideObj bs cs (args.headD .unk)) := by exact id rfl
+theorem wideWorld_le64 : wideWorld bs cs "binary.LittleEndian.Uint64" args =
+    uintAns leU64 (wideObj bs cs (args.headD .unk)) := by exact id rfl
+theorem wideWorld_append : wideWorld bs cs "append" args = appendAnsW args := by exact id rfl
+theorem wideWorld_probe4 : wideWorld bs cs "#in[i+0..3]" args = some (probe4 bs (args.headD .unk)) := by
+  exact id rfl
+theorem wideWorld_probe8 : wideWorld bs cs "#in[i+0..7]" args = some (probe8 bs (args.headD .unk)) := by
+  exact id rfl
+end world
+
+/-- the values appended to `out`, in order, read off a log -/
+def wideAppended (cs : Calls) : List Val :=
+  (cs.filter (fun c => c.1 == "append")).map (fun c => c.2.getD 1 .unk)
+
+theorem wideAppended_nil : wideAppended [] = [] := by exact id rfl
+theorem wideAppended_snoc_append (cs : Calls) (o v : Val) :
+    wideAppended (cs ++ [("append", [o, v])]) = wideAppended cs ++ [v] := by
+  simp [wideAppended, List.filter_append]
+theorem wideAppended_snoc_other (cs : Calls) (f : String) (args : List Val) (h : f ≠ "append") :
+    wideAppended (cs ++ [(f, args)]) = wideAppended cs := by
+  simp [wideAppended, List.filter_append, h]
+
+/-- the argument lists of the calls to `f` in a log, in order -/
+def wideArgs (f : String) (cs : Calls) : List (List Val) := (cs.filter (fun c => c.1 == f)).map (·.2)
+
+theorem wideArgs_snoc_other (f : String) (cs : Calls) (g : String) (args : List Val) (h : g ≠ f) :
+    wideArgs f (cs ++ [(g, args)]) = wideArgs f cs := by
+  simp [wideArgs, List.filter_append, h]
+theorem wideArgs_eq_argsOf (f : String) (r : Res) : wideArgs f r.calls = r.argsOf f := by rfl
+
+theorem wide_word_ne2 {w : Int} (h : ¬ w = 2) : ¬ wordOfInt w = .lowFirst := by
+  unfold wordOfInt
+  by_cases h1 : w = 1
+  · rw [if_pos h1]; exact fun h => nomatch h
+  · rw [if_neg h1, if_neg h]; exact fun h => nomatch h
+theorem wide_word_ne1 {w : Int} (h : ¬ w = 1) : ¬ wordOfInt w = .highFirst := by
+  unfold wordOfInt
+  rw [if_neg h]
+  by_cases h2 : w = 2
+  · rw [if_pos h2]; exact fun h => nomatch h
+  · rw [if_neg h2]; exact fun h => nomatch h
+theorem wide_endian_invalid {e : Int} (h1 : ¬ e = 1) (h2 : ¬ e = 2) : endianOfInt e = .invalid := by
+  unfold endianOfInt; rw [if_neg h1, if_neg h2]
+
+/-- what the loops keep: the counter, the length leaf, the selectors, the opaque slices -/
+def DecInv (env : Env) (j n : Nat) (e w : Int) : Prop :=
+  Env.read? env "i" = some (.int (j : Int)) ∧ Env.read? env "len(in)" = some (.int (n : Int)) ∧
+  Env.read? env "endianness" = some (.int e) ∧ Env.read? env "wordOrder" = some (.int w) ∧
+  Env.read? env "out" = some (.sym "out") ∧ Env.read? env "in" = some (.sym "in")
+
+/-! ### running loops piece by piece, from facts about the round -/
+
+variable (W : World)
+
+theorem execFromW_loop_fell' {n : Nat} {b : GStmt} {env : Env} {cs : Calls}
+    (h : (execFromW W n b env cs).how = .fell) :
+    execFromW W (n+1) (.loop b) env cs =
+      execFromW W n (.loop b) (execFromW W n b env cs).env (execFromW W n b env cs).calls := by
+  rw [execFromW_loop]; unfold loopKW; rw [h]
+theorem execFromW_loop_broke' {n : Nat} {b : GStmt} {env : Env} {cs : Calls}
+    (h : (execFromW W n b env cs).how = .broke) :
+    execFromW W (n+1) (.loop b) env cs = { execFromW W n b env cs with how := .fell } := by
+  rw [execFromW_loop]; unfold loopKW; rw [h]
+theorem execFromW_loop_stopped' {n : Nat} {b : GStmt} {env : Env} {cs : Calls} {f : String} {a : List Val}
+    (h : (execFromW W n b env cs).how = .stoppedAt f a) :
+    execFromW W (n+1) (.loop b) env cs = execFromW W n b env cs := by
+  rw [execFromW_loop]; unfold loopKW; rw [h]
+
+/-! ### 4. `bytesToUint32s`: the instrumented term, one round -/
+
+def dec32Leaves : List String := ["in[i+0]", "in[i+1]", "in[i+2]", "in[i+3]"]
+
+/-- `gsp_bytesToUint32s` with the four indexed leaves re-bound from the probe `#in[i+0..3]` (argument: the current
+    value of `i`) at the head of every loop body -/
+def dec32Gs : GStmt := withLeaves dec32Leaves "#in[i+0..3]" "i" gsp_bytesToUint32s
+
+def dec32Probe : GStmt := .bindCall dec32Leaves "#in[i+0..3]" [.var "i" .int]
+
+/-- the `switch endianness` of one round (body of the translator's one-shot loop) -/
+def dec32Switch : GStmt :=
+  (.ite (.cmp "==" (.var "endianness" .uint) (.lit (1) .uint))
+    (.ite (.cmp "==" (.var "wordOrder" .uint) (.lit (1) .uint))
+      (.seq (.bindCall ["#arg3"] "slice" [(.var "in" .other), (.var "i" .int), (.bin "+" .int (.var "i" .int) (.lit (4) .int))])
+        (.bindCall ["u32"] "binary.BigEndian.Uint32" [(.var "#arg3" .other)]))
+      (.seq (.bindCall ["#arg2"] "bytes" [(.var "in[i+2]" .u8), (.var "in[i+3]" .u8), (.var "in[i+0]" .u8), (.var "in[i+1]" .u8)])
+        (.bindCall ["u32"] "binary.BigEndian.Uint32" [(.var "#arg2" .other)])))
+    (.ite (.cmp "==" (.var "endianness" .uint) (.lit (2) .uint))
+      (.ite (.cmp "==" (.var "wordOrder" .uint) (.lit (2) .uint))
+        (.seq (.bindCall ["#arg1"] "slice" [(.var "in" .other), (.var "i" .int), (.bin "+" .int (.var "i" .int) (.lit (4) .int))])
+          (.bindCall ["u32"] "binary.LittleEndian.Uint32" [(.var "#arg1" .other)]))
+        (.seq (.bindCall ["#arg0"] "bytes" [(.var "in[i+2]" .u8), (.var "in[i+3]" .u8), (.var "in[i+0]" .u8), (.var "in[i+1]" .u8)])
+          (.bindCall ["u32"] "binary.LittleEndian.Uint32" [(.var "#arg0" .other)])))
+      .skip))
+
+/-- the body of the `for` loop -/
+def dec32Body : GStmt :=
+  .seq dec32Probe
+    (.ite (.cmp "<" (.var "i" .int) (.var "len(in)" .int))
+      (.seq (.seq (.loop (.seq dec32Probe (.seq dec32Switch .brk)))
+              (.bindCall ["out"] "append" [(.var "out" .other), (.var "u32" .u32)]))
+        (.assign "i" (.bin "+" .int (.var "i" .int) (.lit (4) .int))))
+      .brk)
+
+theorem dec32Gs_eq : dec32Gs = .seq (.seq (.assign "i" (.lit (0) .int)) (.loop dec32Body)) .ret := by rfl
+
+theorem strip_dec32Gs : stripLeaves "#in[i+0..3]" dec32Gs = gsp_bytesToUint32s := by rfl
+
+/-- `go_evalW` with the lemmas of the decoder world -/
+syntax "wide_dec_eval" (" [" Lean.Parser.Tactic.simpLemma,* "]")? : tactic
+macro_rules
+  | `(tactic| wide_dec_eval) => `(tactic| wide_dec_eval [])
+  | `(tactic| wide_dec_eval [$ls,*]) => `(tactic| go_evalW [Modbus.GoEval.wideWorld_slice,
+      Modbus.GoEval.wideWorld_bytes, Modbus.GoEval.wideWorld_be32, Modbus.GoEval.wideWorld_le32,
+      Modbus.GoEval.wideWorld_be64, Modbus.GoEval.wideWorld_le64, Modbus.GoEval.wideWorld_append,
+      Modbus.GoEval.wideWorld_probe4, Modbus.GoEval.wideWorld_probe8, Modbus.GoEval.probe4,
+      Modbus.GoEval.probe8, Modbus.GoEval.wideObj_snoc, Modbus.GoEval.wideObjOfCall_slice,
+      Modbus.GoEval.wideObjOfCall_bytes, Modbus.GoEval.bytesOfVals_nil, Modbus.GoEval.bytesOfVals_cons_byte,
+      Modbus.GoEval.bytesAnsW_int4, Modbus.GoEval.bytesAnsW_int8, Modbus.GoEval.bytesAnsW_unk,
+      Modbus.GoEval.appendAnsW_int, Modbus.GoEval.wideAppended_snoc_append,
+      Modbus.GoEval.wideAppended_snoc_other, Modbus.GoEval.wideArgs_snoc_other, Modbus.GoEval.write_def, Option.map_some, Int.reduceEq,
+      Modbus.GoEval.DecInv, $ls,*])
+
+section round32
+variable (bs : Bytes) (env : Env) (cs : Calls) (j n : Nat) (e w : Int) (m : Nat)
+
+/-- a complete round: four bytes at `j`; the value appended is the model's `u32OfBytes` -/
+theorem dec32_round (b0 b1 b2 b3 : Byte) (he : e = 1 ∨ e = 2) (hn : n < 2^62) (hj : j + 4 ≤ n)
+    (hinv : DecInv env j n e w)
+    (g0 : bs[j + 0]? = some b0) (g1 : bs[j + 1]? = some b1) (g2 : bs[j + 2]? = some b2)
+    (g3 : bs[j + 3]? = some b3)
+    (hs : sliceObj bs [.sym "in", .int (j : Int), .int ((j + 4 : Nat) : Int)] = some [b0, b1, b2, b3]) :
+    let r := execFromW (wideWorld bs) (m + 14) dec32Body env cs
+    r.how = .fell ∧ DecInv r.env (j + 4) n e w ∧
+    wideAppended r.calls = wideAppended cs ++
+      [.int ((Enc.u32OfBytes (endianOfInt e) (wordOfInt w) b0 b1 b2 b3).toNat : Int)] := by
+  obtain ⟨h1, h2, h3, h4, h5, h6⟩ := hinv
+  have hlt : (j : Int) < (n : Int) := by omega
+  have hw4 : ((j : Int) + 4 + 9223372036854775808) % 18446744073709551616 - 9223372036854775808 =
+      ((j + 4 : Nat) : Int) := by omega
+  have p0 := probeAt_some g0
+  have p1 := probeAt_some g1
+  have p2 := probeAt_some g2
+  have p3 := probeAt_some g3
+  have sA := fun h => sliceAnsW_some bs h _ _ hs
+  have ub := uintAns_some beU32 _ _ (beU32_four b0 b1 b2 b3)
+  have ub' := uintAns_some beU32 _ _ (beU32_four b2 b3 b0 b1)
+  have ul := uintAns_some leU32 _ _ (leU32_four b0 b1 b2 b3)
+  have ul' := uintAns_some leU32 _ _ (leU32_four b2 b3 b0 b1)
+  rcases he with he | he
+  · subst he
+    by_cases hw : w = 1
+    · subst hw
+      wide_dec_eval [dec32Body, dec32Probe, dec32Switch, dec32Leaves, h1, h2, h3, h4, h5, h6, hlt, hw4, p0, p1, p2,
+        p3, sA, hs, ub, endianOfInt_1, wordOfInt_1, Enc.u32OfBytes]
+    · wide_dec_eval [dec32Body, dec32Probe, dec32Switch, dec32Leaves, h1, h2, h3, h4, h5, h6, hlt, hw4, p0, p1, p2,
+        p3, ub', endianOfInt_1, hw, wide_word_ne1 hw, Enc.u32OfBytes]
+  · subst he
+    by_cases hw : w = 2
+    · subst hw
+      wide_dec_eval [dec32Body, dec32Probe, dec32Switch, dec32Leaves, h1, h2, h3, h4, h5, h6, hlt, hw4, p0, p1, p2,
+        p3, sA, hs, ul, endianOfInt_2, wordOfInt_2, Enc.u32OfBytes]
+    · wide_dec_eval [dec32Body, dec32Probe, dec32Switch, dec32Leaves, h1, h2, h3, h4, h5, h6, hlt, hw4, p0, p1, p2,
+        p3, ul', endianOfInt_2, hw, wide_word_ne2 hw, Enc.u32OfBytes]
+
+/-- the round at the end of the input: `break` -/
+theorem dec32_exit (hj : n ≤ j) (hinv : DecInv env j n e w) :
+    let r := execFromW (wideWorld bs) (m + 14) dec32Body env cs
+    r.how = .broke ∧ wideAppended r.calls = wideAppended cs := by
+  obtain ⟨h1, h2, h3, h4, h5, h6⟩ := hinv
+  have hlt : ¬ (j : Int) < (n : Int) := by omega
+  wide_dec_eval [dec32Body, dec32Probe, dec32Switch, dec32Leaves, h1, h2, h3, h4, h5, h6, hlt]
+
+/-- the round that runs off the end of the input (1 to 3 bytes left): the run stops at the slice expression
+    `in[i:i+4]` (Go: slice bounds out of range) or at the byte literal that needs `in[i+3]` (Go: index out of
+    range); nothing is appended -/
+theorem dec32_short (he : e = 1 ∨ e = 2) (hn : n < 2^62) (hj : j < n) (hj4 : n < j + 4) (hlen : bs.length = n)
+    (hinv : DecInv env j n e w) :
+    let r := execFromW (wideWorld bs) (m + 14) dec32Body env cs
+    (∃ args, r.how = .stoppedAt "slice" args ∨ r.how = .stoppedAt "bytes" args) ∧
+    wideAppended r.calls = wideAppended cs := by
+  obtain ⟨h1, h2, h3, h4, h5, h6⟩ := hinv
+  have hlt : (j : Int) < (n : Int) := by omega
+  have hw4 : ((j : Int) + 4 + 9223372036854775808) % 18446744073709551616 - 9223372036854775808 =
+      ((j + 4 : Nat) : Int) := by omega
+  have g3 : bs[j + 3]? = none := List.getElem?_eq_none (by omega)
+  have p3 := probeAt_none g3
+  have hs := sliceObj_short bs (.sym "in") j (j + 4) (by omega)
+  have sA := fun h => sliceAnsW_none bs h _ hs
+  rcases he with he | he
+  · subst he
+    by_cases hw : w = 1
+    · subst hw
+      wide_dec_eval [dec32Body, dec32Probe, dec32Switch, dec32Leaves, h1, h2, h3, h4, h5, h6, hlt, hw4, p3, sA]
+      exact ⟨_, Or.inl rfl⟩
+    · wide_dec_eval [dec32Body, dec32Probe, dec32Switch, dec32Leaves, h1, h2, h3, h4, h5, h6, hlt, hw4, p3, hw]
+      exact ⟨_, Or.inr rfl⟩
+  · subst he
+    by_cases hw : w = 2
+    · subst hw
+      wide_dec_eval [dec32Body, dec32Probe, dec32Switch, dec32Leaves, h1, h2, h3, h4, h5, h6, hlt, hw4, p3, sA]
+      exact ⟨_, Or.inl rfl⟩
+    · wide_dec_eval [dec32Body, dec32Probe, dec32Switch, dec32Leaves, h1, h2, h3, h4, h5, h6, hlt, hw4, p3, hw]
+      exact ⟨_, Or.inr rfl⟩
+
+end round32
+
+/-! ### 5. `bytesToUint32s`: all rounds -/
+
+/-- a 32 / 64-bit value as an evaluator value -/
+def u32Val (v : U32) : Val := .int (v.toNat : Int)
+def u64Val (v : U64) : Val := .int (v.toNat : Int)
+
+/-- the values of the COMPLETE four-byte groups of a byte string, in order (a remainder of 1 to 3 bytes is
+    ignored) -/
+def wideChunks32 (e : Endian) (w : WordOrder) : Bytes → List U32
+  | i0 :: i1 :: i2 :: i3 :: rest => Enc.u32OfBytes e w i0 i1 i2 i3 :: wideChunks32 e w rest
+  | _ => []
+
+theorem wideChunks32_cons (e w) (i0 i1 i2 i3 : Byte) (rest : Bytes) :
+    wideChunks32 e w (i0 :: i1 :: i2 :: i3 :: rest) = Enc.u32OfBytes e w i0 i1 i2 i3 :: wideChunks32 e w rest := by
+  rw [wideChunks32]
+
+/-- the model decoder is "all complete groups" when the length is a multiple of 4, `none` otherwise -/
+theorem bytesToUint32s_chunks (e : Endian) (w : WordOrder) : (bs : Bytes) →
+    Enc.bytesToUint32s e w bs = if bs.length % 4 = 0 then some (wideChunks32 e w bs) else none
+  | [] => by rfl
+  | [_] => by rfl
+  | [_, _] => by rfl
+  | [_, _, _] => by rfl
+  | i0 :: i1 :: i2 :: i3 :: rest => by
+    have ih := bytesToUint32s_chunks e w rest
+    have hl : (i0 :: i1 :: i2 :: i3 :: rest).length % 4 = rest.length % 4 := by
+      simp only [List.length_cons]; omega
+    rw [Enc.bytesToUint32s, ih, hl, wideChunks32_cons]
+    by_cases h : rest.length % 4 = 0
+    · rw [if_pos h, if_pos h]
+    · rw [if_neg h, if_neg h]
+
+theorem get_split (pre mid rest : Bytes) (k : Nat) (b : Byte) (h : mid[k]? = some b) :
+    (pre ++ mid ++ rest)[pre.length + k]? = some b := by
+  have hk : k < mid.length := (List.getElem?_eq_some_iff.mp h).1
+  rw [List.append_assoc, List.getElem?_append_right (by omega), Nat.add_sub_cancel_left,
+    List.getElem?_append_left hk, h]
+
+theorem dec32_loop (bs : Bytes) (hn : bs.length < 2^62) (e w : Int) (he : e = 1 ∨ e = 2) :
+    ∀ (k : Nat) (pre rest : Bytes) (env : Env) (cs : Calls) (fuel : Nat),
+      bs = pre ++ rest → rest.length / 4 = k → DecInv env pre.length bs.length e w → k + 16 ≤ fuel →
+      wideAppended (execFromW (wideWorld bs) fuel (.loop dec32Body) env cs).calls =
+        wideAppended cs ++ (wideChunks32 (endianOfInt e) (wordOfInt w) rest).map u32Val ∧
+      (rest.length % 4 = 0 → (execFromW (wideWorld bs) fuel (.loop dec32Body) env cs).how = .fell) ∧
+      (rest.length % 4 ≠ 0 → ∃ args,
+        (execFromW (wideWorld bs) fuel (.loop dec32Body) env cs).how = .stoppedAt "slice" args ∨
+        (execFromW (wideWorld bs) fuel (.loop dec32Body) env cs).how = .stoppedAt "bytes" args) := by
+  intro k
+  induction k with
+  | zero =>
+    intro pre rest env cs fuel hbs hk hinv hf
+    obtain ⟨f, rfl⟩ : ∃ f, fuel = (f + 14) + 1 := ⟨fuel - 15, by omega⟩
+    have hlen : bs.length = pre.length + rest.length := by rw [hbs, List.length_append]
+    have hr4 : rest.length < 4 := by omega
+    by_cases h0 : rest.length = 0
+    · have hx := dec32_exit bs env cs pre.length bs.length e w f (by omega) hinv
+      have hnil : rest = [] := List.eq_nil_of_length_eq_zero h0
+      rw [execFromW_loop_broke' _ hx.1]
+      refine ⟨?_, fun _ => rfl, fun h => absurd (by omega) h⟩
+      rw [hnil]
+      exact hx.2.trans (by simp [wideChunks32])
+    · have hx := dec32_short bs env cs pre.length bs.length e w f he hn (by omega) (by omega) rfl hinv
+      obtain ⟨⟨args, hs⟩, ha⟩ := hx
+      have hch : wideChunks32 (endianOfInt e) (wordOfInt w) rest = [] := by
+        rcases rest with _ | ⟨a, _ | ⟨b, _ | ⟨c, _ | ⟨d, rest'⟩⟩⟩⟩
+        · rfl
+        · rfl
+        · rfl
+        · rfl
+        · simp only [List.length_cons] at hr4; omega
+      rcases hs with hs | hs
+      · rw [execFromW_loop_stopped' _ hs]
+        refine ⟨?_, fun h => absurd h (by omega), fun _ => ⟨args, Or.inl hs⟩⟩
+        rw [hch]; exact ha.trans (by simp)
+      · rw [execFromW_loop_stopped' _ hs]
+        refine ⟨?_, fun h => absurd h (by omega), fun _ => ⟨args, Or.inr hs⟩⟩
+        rw [hch]; exact ha.trans (by simp)
+  | succ k ih =>
+    intro pre rest env cs fuel hbs hk hinv hf
+    obtain ⟨f, rfl⟩ : ∃ f, fuel = (f + 14) + 1 := ⟨fuel - 15, by omega⟩
+    have hr4 : 4 ≤ rest.length := by omega
+    rcases rest with _ | ⟨i0, _ | ⟨i1, _ | ⟨i2, _ | ⟨i3, rest'⟩⟩⟩⟩
+    · simp only [List.length_nil] at hr4; omega
+    · simp only [List.length_cons, List.length_nil] at hr4; omega
+    · simp only [List.length_cons, List.length_nil] at hr4; omega
+    · simp only [List.length_cons, List.length_nil] at hr4; omega
+    · have hbs' : bs = pre ++ [i0, i1, i2, i3] ++ rest' := by
+        rw [hbs]; simp only [List.append_assoc, List.cons_append, List.nil_append]
+      have hlen : bs.length = pre.length + 4 + rest'.length := by
+        rw [hbs']; simp only [List.length_append, List.length_cons, List.length_nil]
+      have hrl : (i0 :: i1 :: i2 :: i3 :: rest').length = rest'.length + 4 := by
+        simp only [List.length_cons]
+      have g0 : bs[pre.length + 0]? = some i0 := by rw [hbs']; exact get_split _ _ _ 0 _ rfl
+      have g1 : bs[pre.length + 1]? = some i1 := by rw [hbs']; exact get_split _ _ _ 1 _ rfl
+      have g2 : bs[pre.length + 2]? = some i2 := by rw [hbs']; exact get_split _ _ _ 2 _ rfl
+      have g3 : bs[pre.length + 3]? = some i3 := by rw [hbs']; exact get_split _ _ _ 3 _ rfl
+      have hs : sliceObj bs [.sym "in", .int (pre.length : Int), .int ((pre.length + 4 : Nat) : Int)]
+          = some [i0, i1, i2, i3] := by
+        rw [hbs']; exact sliceObj_split pre [i0, i1, i2, i3] rest' (.sym "in")
+      have hx := dec32_round bs env cs pre.length bs.length e w f i0 i1 i2 i3 he hn (by omega) hinv
+        g0 g1 g2 g3 hs
+      obtain ⟨hx1, hx2, hx3⟩ := hx
+      rw [execFromW_loop_fell' _ hx1]
+      have hpl : (pre ++ [i0, i1, i2, i3]).length = pre.length + 4 := by
+        simp only [List.length_append, List.length_cons, List.length_nil]
+      obtain ⟨e1, e2, e3⟩ := ih (pre ++ [i0, i1, i2, i3]) rest' _ _ (f + 14) hbs' (by rw [hrl] at hk; omega)
+        (by rw [hpl]; exact hx2) (by omega)
+      refine ⟨?_, ?_, ?_⟩
+      · rw [e1, hx3, wideChunks32_cons, List.map_cons, List.append_assoc]; rfl
+      · intro h; exact e2 (by rw [hrl] at h; omega)
+      · intro h; exact e3 (by rw [hrl] at h; omega)
+
+theorem wideChunks32_length (e w) : (bs : Bytes) → (wideChunks32 e w bs).length = bs.length / 4
+  | [] => by rfl
+  | [_] => by simp [wideChunks32]
+  | [_, _] => by simp [wideChunks32]
+  | [_, _, _] => by simp [wideChunks32]
+  | i0 :: i1 :: i2 :: i3 :: rest => by
+    rw [wideChunks32_cons, List.length_cons, wideChunks32_length e w rest]
+    simp only [List.length_cons]; omega
+
+/-- the whole function: `i = 0`, the loop, `return` -/
+theorem dec_whole (W : World) (body : GStmt) (env : Env) (f : Nat) :
+    execFromW W (f + 3) (.seq (.seq (.assign "i" (.lit (0) .int)) (.loop body)) .ret) env [] =
+      seqKW W (f + 2) .ret (execFromW W (f + 1) (.loop body) (Env.write env "i" (.int 0)) []) := by
+  simp only [execFromW_seq, execFromW_assign, panics_lit, eval_lit, seqKW_fell, Bool.false_eq_true, ↓reduceIte]
+
+theorem seqKW_ret_fell (W : World) (n : Nat) (r : Res) (h : r.how = .fell) :
+    seqKW W (n + 1) .ret r = ⟨r.env, .returned, r.calls⟩ := by
+  unfold seqKW; rw [h]; rfl
+
+/-! ### 6. `bytesToUint64s` -/
+
+def dec64Leaves : List String :=
+  ["in[i+0]", "in[i+1]", "in[i+2]", "in[i+3]", "in[i+4]", "in[i+5]", "in[i+6]", "in[i+7]"]
+
+def dec64Gs : GStmt := withLeaves dec64Leaves "#in[i+0..7]" "i" gsp_bytesToUint64s
+
+def dec64Probe : GStmt := .bindCall dec64Leaves "#in[i+0..7]" [.var "i" .int]
+
+def dec64Lit : List GExpr :=
+  [(.var "in[i+6]" .u8), (.var "in[i+7]" .u8), (.var "in[i+4]" .u8), (.var "in[i+5]" .u8),
+   (.var "in[i+2]" .u8), (.var "in[i+3]" .u8), (.var "in[i+0]" .u8), (.var "in[i+1]" .u8)]
+
+def dec64Switch : GStmt :=
+  (.ite (.cmp "==" (.var "endianness" .uint) (.lit (1) .uint))
+    (.ite (.cmp "==" (.var "wordOrder" .uint) (.lit (1) .uint))
+      (.seq (.bindCall ["#arg3"] "slice" [(.var "in" .other), (.var "i" .int), (.bin "+" .int (.var "i" .int) (.lit (8) .int))])
+        (.bindCall ["u64"] "binary.BigEndian.Uint64" [(.var "#arg3" .other)]))
+      (.seq (.bindCall ["#arg2"] "bytes" dec64Lit)
+        (.bindCall ["u64"] "binary.BigEndian.Uint64" [(.var "#arg2" .other)])))
+    (.ite (.cmp "==" (.var "endianness" .uint) (.lit (2) .uint))
+      (.ite (.cmp "==" (.var "wordOrder" .uint) (.lit (2) .uint))
+        (.seq (.bindCall ["#arg1"] "slice" [(.var "in" .other), (.var "i" .int), (.bin "+" .int (.var "i" .int) (.lit (8) .int))])
+          (.bindCall ["u64"] "binary.LittleEndian.Uint64" [(.var "#arg1" .other)]))
+        (.seq (.bindCall ["#arg0"] "bytes" dec64Lit)
+          (.bindCall ["u64"] "binary.LittleEndian.Uint64" [(.var "#arg0" .other)])))
+      .skip))
+
+def dec64Body : GStmt :=
+  .seq dec64Probe
+    (.ite (.cmp "<" (.var "i" .int) (.var "len(in)" .int))
+      (.seq (.seq (.loop (.seq dec64Probe (.seq dec64Switch .brk)))
+              (.bindCall ["out"] "append" [(.var "out" .other), (.var "u64" .u64)]))
+        (.assign "i" (.bin "+" .int (.var "i" .int) (.lit (8) .int))))
+      .brk)
+
+theorem dec64Gs_eq : dec64Gs = .seq (.seq (.assign "i" (.lit (0) .int)) (.loop dec64Body)) .ret := by rfl
+
+theorem strip_dec64Gs : stripLeaves "#in[i+0..7]" dec64Gs = gsp_bytesToUint64s := by rfl
+
+section round64
+variable (bs : Bytes) (env : Env) (cs : Calls) (j n : Nat) (e w : Int) (m : Nat)
+
+theorem dec64_round (b0 b1 b2 b3 b4 b5 b6 b7 : Byte) (he : e = 1 ∨ e = 2) (hn : n < 2^62) (hj : j + 8 ≤ n)
+    (hinv : DecInv env j n e w)
+    (g0 : bs[j + 0]? = some b0) (g1 : bs[j + 1]? = some b1) (g2 : bs[j + 2]? = some b2)
+    (g3 : bs[j + 3]? = some b3) (g4 : bs[j + 4]? = some b4) (g5 : bs[j + 5]? = some b5)
+    (g6 : bs[j + 6]? = some b6) (g7 : bs[j + 7]? = some b7)
+    (hs : sliceObj bs [.sym "in", .int (j : Int), .int ((j + 8 : Nat) : Int)] =
+      some [b0, b1, b2, b3, b4, b5, b6, b7]) :
+    let r := execFromW (wideWorld bs) (m + 14) dec64Body env cs
+    r.how = .fell ∧ DecInv r.env (j + 8) n e w ∧
+    wideAppended r.calls = wideAppended cs ++
+      [.int ((Enc.u64OfBytes (endianOfInt e) (wordOfInt w) b0 b1 b2 b3 b4 b5 b6 b7).toNat : Int)] := by
+  obtain ⟨h1, h2, h3, h4, h5, h6⟩ := hinv
+  have hlt : (j : Int) < (n : Int) := by omega
+  have hw4 : ((j : Int) + 8 + 9223372036854775808) % 18446744073709551616 - 9223372036854775808 =
+      ((j + 8 : Nat) : Int) := by omega
+  have p0 := probeAt_some g0
+  have p1 := probeAt_some g1
+  have p2 := probeAt_some g2
+  have p3 := probeAt_some g3
+  have p4 := probeAt_some g4
+  have p5 := probeAt_some g5
+  have p6 := probeAt_some g6
+  have p7 := probeAt_some g7
+  have sA := fun h => sliceAnsW_some bs h _ _ hs
+  have ub := uintAns_some beU64 _ _ (beU64_eight b0 b1 b2 b3 b4 b5 b6 b7)
+  have ub' := uintAns_some beU64 _ _ (beU64_eight b6 b7 b4 b5 b2 b3 b0 b1)
+  have ul := uintAns_some leU64 _ _ (leU64_eight b0 b1 b2 b3 b4 b5 b6 b7)
+  have ul' := uintAns_some leU64 _ _ (leU64_eight b6 b7 b4 b5 b2 b3 b0 b1)
+  rcases he with he | he
+  · subst he
+    by_cases hw : w = 1
+    · subst hw
+      wide_dec_eval [dec64Body, dec64Probe, dec64Switch, dec64Lit, dec64Leaves, h1, h2, h3, h4, h5, h6, hlt, hw4,
+        p0, p1, p2, p3, p4, p5, p6, p7, sA, hs, ub, endianOfInt_1, wordOfInt_1, Enc.u64OfBytes]
+    · wide_dec_eval [dec64Body, dec64Probe, dec64Switch, dec64Lit, dec64Leaves, h1, h2, h3, h4, h5, h6, hlt, hw4,
+        p0, p1, p2, p3, p4, p5, p6, p7, ub', endianOfInt_1, hw, wide_word_ne1 hw, Enc.u64OfBytes]
+  · subst he
+    by_cases hw : w = 2
+    · subst hw
+      wide_dec_eval [dec64Body, dec64Probe, dec64Switch, dec64Lit, dec64Leaves, h1, h2, h3, h4, h5, h6, hlt, hw4,
+        p0, p1, p2, p3, p4, p5, p6, p7, sA, hs, ul, endianOfInt_2, wordOfInt_2, Enc.u64OfBytes]
+    · wide_dec_eval [dec64Body, dec64Probe, dec64Switch, dec64Lit, dec64Leaves, h1, h2, h3, h4, h5, h6, hlt, hw4,
+        p0, p1, p2, p3, p4, p5, p6, p7, ul', endianOfInt_2, hw, wide_word_ne2 hw, Enc.u64OfBytes]
+
+theorem dec64_exit (hj : n ≤ j) (hinv : DecInv env j n e w) :
+    let r := execFromW (wideWorld bs) (m + 14) dec64Body env cs
+    r.how = .broke ∧ wideAppended r.calls = wideAppended cs := by
+  obtain ⟨h1, h2, h3, h4, h5, h6⟩ := hinv
+  have hlt : ¬ (j : Int) < (n : Int) := by omega
+  wide_dec_eval [dec64Body, dec64Probe, dec64Switch, dec64Lit, dec64Leaves, h1, h2, h3, h4, h5, h6, hlt]
+
+/-- the round that runs off the end of the input (1 to 7 bytes left) -/
+theorem dec64_short (he : e = 1 ∨ e = 2) (hn : n < 2^62) (hj : j < n) (hj8 : n < j + 8) (hlen : bs.length = n)
+    (hinv : DecInv env j n e w) :
+    let r := execFromW (wideWorld bs) (m + 14) dec64Body env cs
+    (∃ args, r.how = .stoppedAt "slice" args ∨ r.how = .stoppedAt "bytes" args) ∧
+    wideAppended r.calls = wideAppended cs := by
+  obtain ⟨h1, h2, h3, h4, h5, h6⟩ := hinv
+  have hlt : (j : Int) < (n : Int) := by omega
+  have hw4 : ((j : Int) + 8 + 9223372036854775808) % 18446744073709551616 - 9223372036854775808 =
+      ((j + 8 : Nat) : Int) := by omega
+  have g7 : bs[j + 7]? = none := List.getElem?_eq_none (by omega)
+  have p7 := probeAt_none g7
+  have hs := sliceObj_short bs (.sym "in") j (j + 8) (by omega)
+  have sA := fun h => sliceAnsW_none bs h _ hs
+  rcases he with he | he
+  · subst he
+    by_cases hw : w = 1
+    · subst hw
+      wide_dec_eval [dec64Body, dec64Probe, dec64Switch, dec64Lit, dec64Leaves, h1, h2, h3, h4, h5, h6, hlt, hw4, p7, sA]
+      exact ⟨_, Or.inl rfl⟩
+    · wide_dec_eval [dec64Body, dec64Probe, dec64Switch, dec64Lit, dec64Leaves, h1, h2, h3, h4, h5, h6, hlt, hw4, p7, hw]
+      exact ⟨_, Or.inr rfl⟩
+  · subst he
+    by_cases hw : w = 2
+    · subst hw
+      wide_dec_eval [dec64Body, dec64Probe, dec64Switch, dec64Lit, dec64Leaves, h1, h2, h3, h4, h5, h6, hlt, hw4, p7, sA]
+      exact ⟨_, Or.inl rfl⟩
+    · wide_dec_eval [dec64Body, dec64Probe, dec64Switch, dec64Lit, dec64Leaves, h1, h2, h3, h4, h5, h6, hlt, hw4, p7, hw]
+      exact ⟨_, Or.inr rfl⟩
+
+end round64
+
+def wideChunks64 (e : Endian) (w : WordOrder) : Bytes → List U64
+  | i0 :: i1 :: i2 :: i3 :: i4 :: i5 :: i6 :: i7 :: rest =>
+    Enc.u64OfBytes e w i0 i1 i2 i3 i4 i5 i6 i7 :: wideChunks64 e w rest
+  | _ => []
+
+theorem wideChunks64_cons (e w) (i0 i1 i2 i3 i4 i5 i6 i7 : Byte) (rest : Bytes) :
+    wideChunks64 e w (i0 :: i1 :: i2 :: i3 :: i4 :: i5 :: i6 :: i7 :: rest) =
+      Enc.u64OfBytes e w i0 i1 i2 i3 i4 i5 i6 i7 :: wideChunks64 e w rest := by
+  rw [wideChunks64]
+
+theorem wideChunks64_short (e w) (rest : Bytes) (h : rest.length < 8) : wideChunks64 e w rest = [] := by
+  rcases rest with _ | ⟨a, _ | ⟨b, _ | ⟨c, _ | ⟨d, _ | ⟨e', _ | ⟨f, _ | ⟨g, _ | ⟨i, rest'⟩⟩⟩⟩⟩⟩⟩⟩
+  · rfl
+  · rfl
+  · rfl
+  · rfl
+  · rfl
+  · rfl
+  · rfl
+  · rfl
+  · simp only [List.length_cons] at h; omega
+
+theorem bytesToUint64s_short (e w) (rest : Bytes) (h : rest.length < 8) (h0 : rest ≠ []) :
+    Enc.bytesToUint64s e w rest = none := by
+  rcases rest with _ | ⟨a, _ | ⟨b, _ | ⟨c, _ | ⟨d, _ | ⟨e', _ | ⟨f, _ | ⟨g, _ | ⟨i, rest'⟩⟩⟩⟩⟩⟩⟩⟩
+  · exact absurd rfl h0
+  · rfl
+  · rfl
+  · rfl
+  · rfl
+  · rfl
+  · rfl
+  · rfl
+  · simp only [List.length_cons] at h; omega
+
+theorem bytesToUint64s_chunks (e : Endian) (w : WordOrder) : ∀ (n : Nat) (bs : Bytes), bs.length = n →
+    Enc.bytesToUint64s e w bs = if bs.length % 8 = 0 then some (wideChunks64 e w bs) else none := by
+  intro n
+  induction n using Nat.strongRecOn with
+  | _ n ih =>
+    intro bs hl
+    by_cases h8 : bs.length < 8
+    · by_cases h0 : bs = []
+      · subst h0; rfl
+      · have hne : bs.length ≠ 0 := fun h => h0 (List.eq_nil_of_length_eq_zero h)
+        rw [bytesToUint64s_short e w bs h8 h0, if_neg (by omega)]
+    · rcases bs with _ | ⟨i0, _ | ⟨i1, _ | ⟨i2, _ | ⟨i3, _ | ⟨i4, _ | ⟨i5, _ | ⟨i6, _ | ⟨i7, rest⟩⟩⟩⟩⟩⟩⟩⟩
+      all_goals try (simp only [List.length_cons, List.length_nil] at h8; omega)
+      have hl' : (i0 :: i1 :: i2 :: i3 :: i4 :: i5 :: i6 :: i7 :: rest).length = rest.length + 8 := by
+        simp only [List.length_cons]
+      have ih' := ih rest.length (by omega) rest rfl
+      have hm : (rest.length + 8) % 8 = rest.length % 8 := by omega
+      rw [Enc.bytesToUint64s, ih', hl', hm, wideChunks64_cons]
+      by_cases h : rest.length % 8 = 0
+      · rw [if_pos h, if_pos h]
+      · rw [if_neg h, if_neg h]
+
+theorem wideChunks64_length (e w) : ∀ (n : Nat) (bs : Bytes), bs.length = n →
+    (wideChunks64 e w bs).length = bs.length / 8 := by
+  intro n
+  induction n using Nat.strongRecOn with
+  | _ n ih =>
+    intro bs hl
+    by_cases h8 : bs.length < 8
+    · rw [wideChunks64_short e w bs h8]; simp only [List.length_nil]; omega
+    · rcases bs with _ | ⟨i0, _ | ⟨i1, _ | ⟨i2, _ | ⟨i3, _ | ⟨i4, _ | ⟨i5, _ | ⟨i6, _ | ⟨i7, rest⟩⟩⟩⟩⟩⟩⟩⟩
+      all_goals try (simp only [List.length_cons, List.length_nil] at h8; omega)
+      have hl' : (i0 :: i1 :: i2 :: i3 :: i4 :: i5 :: i6 :: i7 :: rest).length = rest.length + 8 := by
+        simp only [List.length_cons]
+      rw [wideChunks64_cons, List.length_cons, ih rest.length (by omega) rest rfl, hl']
+      omega
+
+theorem dec64_loop (bs : Bytes) (hn : bs.length < 2^62) (e w : Int) (he : e = 1 ∨ e = 2) :
+    ∀ (k : Nat) (pre rest : Bytes) (env : Env) (cs : Calls) (fuel : Nat),
+      bs = pre ++ rest → rest.length / 8 = k → DecInv env pre.length bs.length e w → k + 16 ≤ fuel →
+      wideAppended (execFromW (wideWorld bs) fuel (.loop dec64Body) env cs).calls =
+        wideAppended cs ++ (wideChunks64 (endianOfInt e) (wordOfInt w) rest).map u64Val ∧
+      (rest.length % 8 = 0 → (execFromW (wideWorld bs) fuel (.loop dec64Body) env cs).how = .fell) ∧
+      (rest.length % 8 ≠ 0 → ∃ args,
+        (execFromW (wideWorld bs) fuel (.loop dec64Body) env cs).how = .stoppedAt "slice" args ∨
+        (execFromW (wideWorld bs) fuel (.loop dec64Body) env cs).how = .stoppedAt "bytes" args) := by
+  intro k
+  induction k with
+  | zero =>
+    intro pre rest env cs fuel hbs hk hinv hf
+    obtain ⟨f, rfl⟩ : ∃ f, fuel = (f + 14) + 1 := ⟨fuel - 15, by omega⟩
+    have hlen : bs.length = pre.length + rest.length := by rw [hbs, List.length_append]
+    have hr8 : rest.length < 8 := by omega
+    have hch := wideChunks64_short (endianOfInt e) (wordOfInt w) rest hr8
+    by_cases h0 : rest.length = 0
+    · have hx := dec64_exit bs env cs pre.length bs.length e w f (by omega) hinv
+      rw [execFromW_loop_broke' _ hx.1]
+      refine ⟨?_, fun _ => rfl, fun h => absurd (by omega) h⟩
+      rw [hch]
+      exact hx.2.trans (by simp)
+    · have hx := dec64_short bs env cs pre.length bs.length e w f he hn (by omega) (by omega) rfl hinv
+      obtain ⟨⟨args, hs⟩, ha⟩ := hx
+      rcases hs with hs | hs
+      · rw [execFromW_loop_stopped' _ hs]
+        refine ⟨?_, fun h => absurd h (by omega), fun _ => ⟨args, Or.inl hs⟩⟩
+        rw [hch]; exact ha.trans (by simp)
+      · rw [execFromW_loop_stopped' _ hs]
+        refine ⟨?_, fun h => absurd h (by omega), fun _ => ⟨args, Or.inr hs⟩⟩
+        rw [hch]; exact ha.trans (by simp)
+  | succ k ih =>
+    intro pre rest env cs fuel hbs hk hinv hf
+    obtain ⟨f, rfl⟩ : ∃ f, fuel = (f + 14) + 1 := ⟨fuel - 15, by omega⟩
+    have hr8 : 8 ≤ rest.length := by omega
+    rcases rest with _ | ⟨i0, _ | ⟨i1, _ | ⟨i2, _ | ⟨i3, _ | ⟨i4, _ | ⟨i5, _ | ⟨i6, _ | ⟨i7, rest'⟩⟩⟩⟩⟩⟩⟩⟩
+    all_goals try (simp only [List.length_cons, List.length_nil] at hr8; omega)
+    have hbs' : bs = pre ++ [i0, i1, i2, i3, i4, i5, i6, i7] ++ rest' := by
+      rw [hbs]; simp only [List.append_assoc, List.cons_append, List.nil_append]
+    have hlen : bs.length = pre.length + 8 + rest'.length := by
+      rw [hbs']; simp only [List.length_append, List.length_cons, List.length_nil]
+    have hrl : (i0 :: i1 :: i2 :: i3 :: i4 :: i5 :: i6 :: i7 :: rest').length = rest'.length + 8 := by
+      simp only [List.length_cons]
+    have g0 : bs[pre.length + 0]? = some i0 := by rw [hbs']; exact get_split _ _ _ 0 _ rfl
+    have g1 : bs[pre.length + 1]? = some i1 := by rw [hbs']; exact get_split _ _ _ 1 _ rfl
+    have g2 : bs[pre.length + 2]? = some i2 := by rw [hbs']; exact get_split _ _ _ 2 _ rfl
+    have g3 : bs[pre.length + 3]? = some i3 := by rw [hbs']; exact get_split _ _ _ 3 _ rfl
+    have g4 : bs[pre.length + 4]? = some i4 := by rw [hbs']; exact get_split _ _ _ 4 _ rfl
+    have g5 : bs[pre.length + 5]? = some i5 := by rw [hbs']; exact get_split _ _ _ 5 _ rfl
+    have g6 : bs[pre.length + 6]? = some i6 := by rw [hbs']; exact get_split _ _ _ 6 _ rfl
+    have g7 : bs[pre.length + 7]? = some i7 := by rw [hbs']; exact get_split _ _ _ 7 _ rfl
+    have hs : sliceObj bs [.sym "in", .int (pre.length : Int), .int ((pre.length + 8 : Nat) : Int)]
+        = some [i0, i1, i2, i3, i4, i5, i6, i7] := by
+      rw [hbs']; exact sliceObj_split pre [i0, i1, i2, i3, i4, i5, i6, i7] rest' (.sym "in")
+    have hx := dec64_round bs env cs pre.length bs.length e w f i0 i1 i2 i3 i4 i5 i6 i7 he hn (by omega) hinv
+      g0 g1 g2 g3 g4 g5 g6 g7 hs
+    obtain ⟨hx1, hx2, hx3⟩ := hx
+    rw [execFromW_loop_fell' _ hx1]
+    have hpl : (pre ++ [i0, i1, i2, i3, i4, i5, i6, i7]).length = pre.length + 8 := by
+      simp only [List.length_append, List.length_cons, List.length_nil]
+    obtain ⟨e1, e2, e3⟩ := ih (pre ++ [i0, i1, i2, i3, i4, i5, i6, i7]) rest' _ _ (f + 14) hbs'
+      (by rw [hrl] at hk; omega) (by rw [hpl]; exact hx2) (by omega)
+    refine ⟨?_, ?_, ?_⟩
+    · rw [e1, hx3, wideChunks64_cons, List.map_cons, List.append_assoc]; rfl
+    · intro h; exact e2 (by rw [hrl] at h; omega)
+    · intro h; exact e3 (by rw [hrl] at h; omega)
+
+/-! ### 6b. the decoders with a byte order that is neither constant (out of contract) -/
+
+/-- a round with a byte order that is neither constant: no `case` matches, `u32` keeps its value (the zero value
+    of the declaration), which is appended; no element of `in` is read -/
+theorem dec32_round_invalid (bs : Bytes) (env : Env) (cs : Calls) (j n : Nat) (e w : Int) (m : Nat)
+    (h1e : ¬ e = 1) (h2e : ¬ e = 2) (hn : n < 2^62) (hj : j < n) (hinv : DecInv env j n e w)
+    (hu : Env.read? env "u32" = some (.int 0)) :
+    let r := execFromW (wideWorld bs) (m + 14) dec32Body env cs
+    r.how = .fell ∧ DecInv r.env (j + 4) n e w ∧ Env.read? r.env "u32" = some (.int 0) ∧
+    wideAppended r.calls = wideAppended cs ++ [.int 0] := by
+  obtain ⟨h1, h2, h3, h4, h5, h6⟩ := hinv
+  have hlt : (j : Int) < (n : Int) := by omega
+  have hw4 : ((j : Int) + 4 + 9223372036854775808) % 18446744073709551616 - 9223372036854775808 =
+      ((j + 4 : Nat) : Int) := by omega
+  wide_dec_eval [dec32Body, dec32Probe, dec32Switch, dec32Leaves, h1, h2, h3, h4, h5, h6, hu, hlt, hw4, h1e, h2e]
+
+theorem dec32_loop_invalid (bs : Bytes) (n : Nat) (hn : n < 2^62) (e w : Int) (h1e : ¬ e = 1) (h2e : ¬ e = 2) :
+    ∀ (k j : Nat) (env : Env) (cs : Calls) (fuel : Nat),
+      (n - j + (4 - 1)) / 4 = k → DecInv env j n e w → Env.read? env "u32" = some (.int 0) → k + 16 ≤ fuel →
+      (execFromW (wideWorld bs) fuel (.loop dec32Body) env cs).how = .fell ∧
+      wideAppended (execFromW (wideWorld bs) fuel (.loop dec32Body) env cs).calls =
+        wideAppended cs ++ List.replicate k (.int 0) := by
+  intro k
+  induction k with
+  | zero =>
+    intro j env cs fuel hk hinv hu hf
+    obtain ⟨f, rfl⟩ : ∃ f, fuel = (f + 14) + 1 := ⟨fuel - 15, by omega⟩
+    have hx := dec32_exit bs env cs j n e w f (by omega) hinv
+    rw [execFromW_loop_broke' _ hx.1]
+    exact ⟨rfl, hx.2.trans (by simp)⟩
+  | succ k ih =>
+    intro j env cs fuel hk hinv hu hf
+    obtain ⟨f, rfl⟩ : ∃ f, fuel = (f + 14) + 1 := ⟨fuel - 15, by omega⟩
+    obtain ⟨hx1, hx2, hx3, hx4⟩ := dec32_round_invalid bs env cs j n e w f h1e h2e hn (by omega) hinv hu
+    rw [execFromW_loop_fell' _ hx1]
+    obtain ⟨e1, e2⟩ := ih (j + 4) _ _ (f + 14) (by omega) hx2 hx3 (by omega)
+    refine ⟨e1, ?_⟩
+    rw [e2, hx4, List.append_assoc, List.replicate_succ]; rfl
+
+/-- a round with a byte order that is neither constant: no `case` matches, `u64` keeps its value (the zero value
+    of the declaration), which is appended; no element of `in` is read -/
+theorem dec64_round_invalid (bs : Bytes) (env : Env) (cs : Calls) (j n : Nat) (e w : Int) (m : Nat)
+    (h1e : ¬ e = 1) (h2e : ¬ e = 2) (hn : n < 2^62) (hj : j < n) (hinv : DecInv env j n e w)
+    (hu : Env.read? env "u64" = some (.int 0)) :
+    let r := execFromW (wideWorld bs) (m + 14) dec64Body env cs
+    r.how = .fell ∧ DecInv r.env (j + 8) n e w ∧ Env.read? r.env "u64" = some (.int 0) ∧
+    wideAppended r.calls = wideAppended cs ++ [.int 0] := by
+  obtain ⟨h1, h2, h3, h4, h5, h6⟩ := hinv
+  have hlt : (j : Int) < (n : Int) := by omega
+  have hw4 : ((j : Int) + 8 + 9223372036854775808) % 18446744073709551616 - 9223372036854775808 =
+      ((j + 8 : Nat) : Int) := by omega
+  wide_dec_eval [dec64Body, dec64Probe, dec64Switch, dec64Leaves, h1, h2, h3, h4, h5, h6, hu, hlt, hw4, h1e, h2e]
+
+theorem dec64_loop_invalid (bs : Bytes) (n : Nat) (hn : n < 2^62) (e w : Int) (h1e : ¬ e = 1) (h2e : ¬ e = 2) :
+    ∀ (k j : Nat) (env : Env) (cs : Calls) (fuel : Nat),
+      (n - j + (8 - 1)) / 8 = k → DecInv env j n e w → Env.read? env "u64" = some (.int 0) → k + 16 ≤ fuel →
+      (execFromW (wideWorld bs) fuel (.loop dec64Body) env cs).how = .fell ∧
+      wideAppended (execFromW (wideWorld bs) fuel (.loop dec64Body) env cs).calls =
+        wideAppended cs ++ List.replicate k (.int 0) := by
+  intro k
+  induction k with
+  | zero =>
+    intro j env cs fuel hk hinv hu hf
+    obtain ⟨f, rfl⟩ : ∃ f, fuel = (f + 14) + 1 := ⟨fuel - 15, by omega⟩
+    have hx := dec64_exit bs env cs j n e w f (by omega) hinv
+    rw [execFromW_loop_broke' _ hx.1]
+    exact ⟨rfl, hx.2.trans (by simp)⟩
+  | succ k ih =>
+    intro j env cs fuel hk hinv hu hf
+    obtain ⟨f, rfl⟩ : ∃ f, fuel = (f + 14) + 1 := ⟨fuel - 15, by omega⟩
+    obtain ⟨hx1, hx2, hx3, hx4⟩ := dec64_round_invalid bs env cs j n e w f h1e h2e hn (by omega) hinv hu
+    rw [execFromW_loop_fell' _ hx1]
+    obtain ⟨e1, e2⟩ := ih (j + 8) _ _ (f + 14) (by omega) hx2 hx3 (by omega)
+    refine ⟨e1, ?_⟩
+    rw [e2, hx4, List.append_assoc, List.replicate_succ]; rfl
+
+theorem wideChunks32_invalid (w : WordOrder) : (bs : Bytes) →
+    wideChunks32 .invalid w bs = List.replicate (bs.length / 4) 0
+  | [] => by rfl
+  | [_] => by simp [wideChunks32]
+  | [_, _] => by simp [wideChunks32]
+  | [_, _, _] => by simp [wideChunks32]
+  | i0 :: i1 :: i2 :: i3 :: rest => by
+    have hl : (i0 :: i1 :: i2 :: i3 :: rest).length / 4 = rest.length / 4 + 1 := by
+      simp only [List.length_cons]; omega
+    rw [wideChunks32_cons, wideChunks32_invalid w rest, hl, List.replicate_succ]; rfl
+
+theorem wideChunks64_invalid (w : WordOrder) : ∀ (n : Nat) (bs : Bytes), bs.length = n →
+    wideChunks64 .invalid w bs = List.replicate (bs.length / 8) 0 := by
+  intro n
+  induction n using Nat.strongRecOn with
+  | _ n ih =>
+    intro bs hl
+    by_cases h8 : bs.length < 8
+    · rw [wideChunks64_short _ w bs h8, Nat.div_eq_of_lt h8]; rfl
+    · rcases bs with _ | ⟨i0, _ | ⟨i1, _ | ⟨i2, _ | ⟨i3, _ | ⟨i4, _ | ⟨i5, _ | ⟨i6, _ | ⟨i7, rest⟩⟩⟩⟩⟩⟩⟩⟩
+      all_goals try (simp only [List.length_cons, List.length_nil] at h8; omega)
+      have hl' : (i0 :: i1 :: i2 :: i3 :: i4 :: i5 :: i6 :: i7 :: rest).length / 8 = rest.length / 8 + 1 := by
+        simp only [List.length_cons]; omega
+      have hlt : rest.length < n := by rw [← hl]; simp only [List.length_cons]; omega
+      rw [wideChunks64_cons, ih rest.length hlt rest rfl, hl', List.replicate_succ]; rfl
+
+/-! ### 7. the float wrappers -/
+
+/-- `math.Float32bits` / `Float64bits` / `Float32frombits` / `Float64frombits` are bit-exact; a float VALUE is
+    represented by its IEEE-754 bit pattern (an integer), so all four are the identity on the representation -/
+def bitsAns : List Val → Option (List Val)
+  | [.int p] => some [.int p]
+  | _ => none
+theorem bitsAns_int (p : Int) : bitsAns [.int p] = some [.int p] := by exact id rfl
+
+/-- the world of the float wrappers: the integer codec calls return an opaque slice symbol (their runs are
+    the subject of the integer theorems), the `math` conversions are the identity on bit patterns, `append` as in
+    `wideWorld`, the probes `#u32s[#i]` / `#u64s[#i]` answer from the list `l` (the integer decoder's result) -/
+def wideFloatWorld (l : List Int) : World := fun _ f args =>
+  if f = "bytesToUint32s" then some [.sym "u32s"]
+  else if f = "bytesToUint64s" then some [.sym "u64s"]
+  else if f = "uint32ToBytes" then some [.sym "uint32ToBytes"]
+  else if f = "uint64ToBytes" then some [.sym "uint64ToBytes"]
+  else if f = "math.Float32bits" then bitsAns args
+  else if f = "math.Float64bits" then bitsAns args
+  else if f = "math.Float32frombits" then bitsAns args
+  else if f = "math.Float64frombits" then bitsAns args
+  else if f = "append" then appendAnsW args
+  else if f = "#u32s[#i]" then some [probeInts l (args.headD .unk)]
+  else if f = "#u64s[#i]" then some [probeInts l (args.headD .unk)]
+  else none
+
+section floatworld
+variable (l : List Int) (cs : Calls) (args : List Val)
+theorem wideFloatWorld_dec32 : wideFloatWorld l cs "bytesToUint32s" args = some [.sym "u32s"] := by exact id rfl
+theorem wideFloatWorld_dec64 : wideFloatWorld l cs "bytesToUint64s" args = some [.sym "u64s"] := by exact id rfl
+theorem wideFloatWorld_enc32 : wideFloatWorld l cs "uint32ToBytes" args = some [.sym "uint32ToBytes"] := by
+  exact id rfl
+theorem wideFloatWorld_enc64 : wideFloatWorld l cs "uint64ToBytes" args = some [.sym "uint64ToBytes"] := by
+  exact id rfl
+theorem wideFloatWorld_bits32 : wideFloatWorld l cs "math.Float32bits" args = bitsAns args := by exact id rfl
+theorem wideFloatWorld_bits64 : wideFloatWorld l cs "math.Float64bits" args = bitsAns args := by exact id rfl
+theorem wideFloatWorld_frombits32 : wideFloatWorld l cs "math.Float32frombits" args = bitsAns args := by
+  exact id rfl
+theorem wideFloatWorld_frombits64 : wideFloatWorld l cs "math.Float64frombits" args = bitsAns args := by
+  exact id rfl
+theorem wideFloatWorld_append : wideFloatWorld l cs "append" args = appendAnsW args := by exact id rfl
+theorem wideFloatWorld_probe32 : wideFloatWorld l cs "#u32s[#i]" args = some [probeInts l (args.headD .unk)] := by
+  exact id rfl
+theorem wideFloatWorld_probe64 : wideFloatWorld l cs "#u64s[#i]" args = some [probeInts l (args.headD .unk)] := by
+  exact id rfl
+end floatworld
+
+/-- `gsp_bytesToFloat32s` with the leaf `u32s[#i]` re-bound from the probe `#u32s[#i]` (argument: the value of `#i`) at
+    the head of the loop body -/
+def decF32Gs : GStmt := withLeaves ["u32s[#i]"] "#u32s[#i]" "#i" gsp_bytesToFloat32s
+
+def decF32Body : GStmt :=
+  .seq (.bindCall ["u32s[#i]"] "#u32s[#i]" [.var "#i" .int])
+    (.ite (.cmp "<" (.var "#i" .int) (.var "#len(u32s)" .int))
+      (.seq (.assign "u32" (.var "u32s[#i]" .u32))
+        (.seq (.seq (.bindCall ["#arg0"] "math.Float32frombits" [(.var "u32" .u32)])
+                (.bindCall ["out"] "append" [(.var "out" .other), (.var "#arg0" .other)]))
+          (.assign "#i" (.bin "+" .int (.var "#i" .int) (.lit 1 .int)))))
+      .brk)
+
+/-- the function around its loop `L` -/
+def decF32With (L : GStmt) : GStmt :=
+  .seq (.bindCall ["u32s"] "bytesToUint32s" [(.var "endianness" .uint), (.var "wordOrder" .uint), (.var "in" .other)])
+    (.seq (.seq (.assign "#len(u32s)" (.var "len(u32s)" .int)) (.seq (.assign "#i" (.lit 0 .int)) L)) .ret)
+
+theorem decF32Gs_eq : decF32Gs = decF32With (.loop decF32Body) := by rfl
+theorem strip_decF32Gs : stripLeaves "#u32s[#i]" decF32Gs = gsp_bytesToFloat32s := by rfl
+
+/-- what the loop keeps -/
+def DecF32Inv (env : Env) (j n : Nat) : Prop :=
+  Env.read? env "#i" = some (.int (j : Int)) ∧ Env.read? env "#len(u32s)" = some (.int (n : Int)) ∧
+  Env.read? env "out" = some (.sym "out")
+
+theorem decF32_round (l : List Int) (env : Env) (cs : Calls) (j n : Nat) (x : Int) (m : Nat) (hn : n < 2^62)
+    (hj : j < n) (hx : l[j]? = some x) (hinv : DecF32Inv env j n) :
+    let r := execFromW (wideFloatWorld l) (m + 8) decF32Body env cs
+    r.how = .fell ∧ DecF32Inv r.env (j + 1) n ∧ wideAppended r.calls = wideAppended cs ++ [.int x] ∧
+    wideArgs "bytesToUint32s" r.calls = wideArgs "bytesToUint32s" cs := by
+  obtain ⟨h1, h2, h3⟩ := hinv
+  have hlt : (j : Int) < (n : Int) := by omega
+  have hw1 : ((j : Int) + 1 + 9223372036854775808) % 18446744073709551616 - 9223372036854775808 =
+      ((j + 1 : Nat) : Int) := by omega
+  have hp : probeInts l (.int (j : Int)) = .int x := by simp [probeInts, hx]
+  wide_dec_eval [decF32Body, DecF32Inv, wideFloatWorld_probe32, wideFloatWorld_frombits32, wideFloatWorld_append, bitsAns_int,
+    h1, h2, h3, hlt, hw1, hp]
+
+theorem decF32_exit (l : List Int) (env : Env) (cs : Calls) (j n : Nat) (m : Nat) (hj : n ≤ j)
+    (hinv : DecF32Inv env j n) :
+    let r := execFromW (wideFloatWorld l) (m + 8) decF32Body env cs
+    r.how = .broke ∧ wideAppended r.calls = wideAppended cs ∧
+    wideArgs "bytesToUint32s" r.calls = wideArgs "bytesToUint32s" cs := by
+  obtain ⟨h1, h2, h3⟩ := hinv
+  have hlt : ¬ (j : Int) < (n : Int) := by omega
+  wide_dec_eval [decF32Body, wideFloatWorld_probe32, h1, h2, h3, hlt]
+
+theorem decF32_loop (l : List Int) (hn : l.length < 2^62) :
+    ∀ (k j : Nat) (env : Env) (cs : Calls) (fuel : Nat),
+      j + k = l.length → DecF32Inv env j l.length → k + 10 ≤ fuel →
+      (execFromW (wideFloatWorld l) fuel (.loop decF32Body) env cs).how = .fell ∧
+      wideAppended (execFromW (wideFloatWorld l) fuel (.loop decF32Body) env cs).calls =
+        wideAppended cs ++ (l.drop j).map Val.int ∧
+      wideArgs "bytesToUint32s" (execFromW (wideFloatWorld l) fuel (.loop decF32Body) env cs).calls = wideArgs "bytesToUint32s" cs := by
+  intro k
+  induction k with
+  | zero =>
+    intro j env cs fuel hjk hinv hf
+    obtain ⟨f, rfl⟩ : ∃ f, fuel = (f + 8) + 1 := ⟨fuel - 9, by omega⟩
+    have hx := decF32_exit l env cs j l.length f (by omega) hinv
+    rw [execFromW_loop_broke' _ hx.1]
+    refine ⟨rfl, ?_, hx.2.2⟩
+    rw [List.drop_of_length_le (by omega)]
+    exact hx.2.1.trans (by simp)
+  | succ k ih =>
+    intro j env cs fuel hjk hinv hf
+    obtain ⟨f, rfl⟩ : ∃ f, fuel = (f + 8) + 1 := ⟨fuel - 9, by omega⟩
+    have hj : j < l.length := by omega
+    obtain ⟨hx1, hx2, hx3, hx4⟩ := decF32_round l env cs j l.length l[j] f hn hj (List.getElem?_eq_getElem hj) hinv
+    rw [execFromW_loop_fell' _ hx1]
+    obtain ⟨e1, e2, e3⟩ := ih (j + 1) _ _ (f + 8) (by omega) hx2 (by omega)
+    refine ⟨e1, ?_, e3.trans hx4⟩
+    rw [e2, hx3, List.drop_eq_getElem_cons hj, List.map_cons, List.append_assoc]; rfl
+
+/-- the whole function given its loop: one call to the integer decoder, the length, the counter, the loop, `return` -/
+theorem decF32_whole (l : List Int) (L : GStmt) (env : Env) (f : Nat) (e w : Int) (n : Nat)
+    (h1 : Env.read? env "endianness" = some (.int e)) (h2 : Env.read? env "wordOrder" = some (.int w))
+    (h3 : Env.read? env "in" = some (.sym "in")) (h4 : Env.read? env "len(u32s)" = some (.int (n : Int))) :
+    execFromW (wideFloatWorld l) (f + 5) (decF32With L) env [] =
+      seqKW (wideFloatWorld l) (f + 3) .ret
+        (execFromW (wideFloatWorld l) (f + 1) L
+          (Env.write (Env.write (Env.write env "u32s" (.sym "u32s")) "#len(u32s)" (.int (n : Int))) "#i" (.int 0))
+          [("bytesToUint32s", [.int e, .int w, .sym "in"])]) := by
+  simp only [decF32With, execFromW_seq, execFromW_bindCall, execFromW_assign, panics_lit, panics_var, eval_lit,
+    eval_var, eval_var_some, h1, h2, h3, h4, read?_write, String.reduceEq, seqKW_fell, Bool.false_eq_true, ↓reduceIte,
+    List.any_cons, List.any_nil, Bool.or_self, List.map, wideFloatWorld_dec32, callK_some, bindAll_cons, bindAll_nil,
+    List.headD_cons, List.nil_append]
+
+/-- `gsp_bytesToFloat64s` with the leaf `u64s[#i]` re-bound from the probe `#u64s[#i]` (argument: the value of `#i`) at
+    the head of the loop body -/
+def decF64Gs : GStmt := withLeaves ["u64s[#i]"] "#u64s[#i]" "#i" gsp_bytesToFloat64s
+
+def decF64Body : GStmt :=
+  .seq (.bindCall ["u64s[#i]"] "#u64s[#i]" [.var "#i" .int])
+    (.ite (.cmp "<" (.var "#i" .int) (.var "#len(u64s)" .int))
+      (.seq (.assign "u64" (.var "u64s[#i]" .u64))
+        (.seq (.seq (.bindCall ["#arg0"] "math.Float64frombits" [(.var "u64" .u64)])
+                (.bindCall ["out"] "append" [(.var "out" .other), (.var "#arg0" .other)]))
+          (.assign "#i" (.bin "+" .int (.var "#i" .int) (.lit 1 .int)))))
+      .brk)
+
+/-- the function around its loop `L` -/
+def decF64With (L : GStmt) : GStmt :=
+  .seq (.bindCall ["u64s"] "bytesToUint64s" [(.var "endianness" .uint), (.var "wordOrder" .uint), (.var "in" .other)])
+    (.seq (.seq (.assign "#len(u64s)" (.var "len(u64s)" .int)) (.seq (.assign "#i" (.lit 0 .int)) L)) .ret)
+
+theorem decF64Gs_eq : decF64Gs = decF64With (.loop decF64Body) := by rfl
+theorem strip_decF64Gs : stripLeaves "#u64s[#i]" decF64Gs = gsp_bytesToFloat64s := by rfl
+
+/-- what the loop keeps -/
+def DecF64Inv (env : Env) (j n : Nat) : Prop :=
+  Env.read? env "#i" = some (.int (j : Int)) ∧ Env.read? env "#len(u64s)" = some (.int (n : Int)) ∧
+  Env.read? env "out" = some (.sym "out")
+
+theorem decF64_round (l : List Int) (env : Env) (cs : Calls) (j n : Nat) (x : Int) (m : Nat) (hn : n < 2^62)
+    (hj : j < n) (hx : l[j]? = some x) (hinv : DecF64Inv env j n) :
+    let r := execFromW (wideFloatWorld l) (m + 8) decF64Body env cs
+    r.how = .fell ∧ DecF64Inv r.env (j + 1) n ∧ wideAppended r.calls = wideAppended cs ++ [.int x] ∧
+    wideArgs "bytesToUint64s" r.calls = wideArgs "bytesToUint64s" cs := by
+  obtain ⟨h1, h2, h3⟩ := hinv
+  have hlt : (j : Int) < (n : Int) := by omega
+  have hw1 : ((j : Int) + 1 + 9223372036854775808) % 18446744073709551616 - 9223372036854775808 =
+      ((j + 1 : Nat) : Int) := by omega
+  have hp : probeInts l (.int (j : Int)) = .int x := by simp [probeInts, hx]
+  wide_dec_eval [decF64Body, DecF64Inv, wideFloatWorld_probe64, wideFloatWorld_frombits64, wideFloatWorld_append, bitsAns_int,
+    h1, h2, h3, hlt, hw1, hp]
+
+theorem decF64_exit (l : List Int) (env : Env) (cs : Calls) (j n : Nat) (m : Nat) (hj : n ≤ j)
+    (hinv : DecF64Inv env j n) :
+    let r := execFromW (wideFloatWorld l) (m + 8) decF64Body env cs
+    r.how = .broke ∧ wideAppended r.calls = wideAppended cs ∧
+    wideArgs "bytesToUint64s" r.calls = wideArgs "bytesToUint64s" cs := by
+  obtain ⟨h1, h2, h3⟩ := hinv
+  have hlt : ¬ (j : Int) < (n : Int) := by omega
+  wide_dec_eval [decF64Body, wideFloatWorld_probe64, h1, h2, h3, hlt]
+
+theorem decF64_loop (l : List Int) (hn : l.length < 2^62) :
+    ∀ (k j : Nat) (env : Env) (cs : Calls) (fuel : Nat),
+      j + k = l.length → DecF64Inv env j l.length → k + 10 ≤ fuel →
+      (execFromW (wideFloatWorld l) fuel (.loop decF64Body) env cs).how = .fell ∧
+      wideAppended (execFromW (wideFloatWorld l) fuel (.loop decF64Body) env cs).calls =
+        wideAppended cs ++ (l.drop j).map Val.int ∧
+      wideArgs "bytesToUint64s" (execFromW (wideFloatWorld l) fuel (.loop decF64Body) env cs).calls = wideArgs "bytesToUint64s" cs := by
+  intro k
+  induction k with
+  | zero =>
+    intro j env cs fuel hjk hinv hf
+    obtain ⟨f, rfl⟩ : ∃ f, fuel = (f + 8) + 1 := ⟨fuel - 9, by omega⟩
+    have hx := decF64_exit l env cs j l.length f (by omega) hinv
+    rw [execFromW_loop_broke' _ hx.1]
+    refine ⟨rfl, ?_, hx.2.2⟩
+    rw [List.drop_of_length_le (by omega)]
+    exact hx.2.1.trans (by simp)
+  | succ k ih =>
+    intro j env cs fuel hjk hinv hf
+    obtain ⟨f, rfl⟩ : ∃ f, fuel = (f + 8) + 1 := ⟨fuel - 9, by omega⟩
+    have hj : j < l.length := by omega
+    obtain ⟨hx1, hx2, hx3, hx4⟩ := decF64_round l env cs j l.length l[j] f hn hj (List.getElem?_eq_getElem hj) hinv
+    rw [execFromW_loop_fell' _ hx1]
+    obtain ⟨e1, e2, e3⟩ := ih (j + 1) _ _ (f + 8) (by omega) hx2 (by omega)
+    refine ⟨e1, ?_, e3.trans hx4⟩
+    rw [e2, hx3, List.drop_eq_getElem_cons hj, List.map_cons, List.append_assoc]; rfl
+
+/-- the whole function given its loop: one call to the integer decoder, the length, the counter, the loop, `return` -/
+theorem decF64_whole (l : List Int) (L : GStmt) (env : Env) (f : Nat) (e w : Int) (n : Nat)
+    (h1 : Env.read? env "endianness" = some (.int e)) (h2 : Env.read? env "wordOrder" = some (.int w))
+    (h3 : Env.read? env "in" = some (.sym "in")) (h4 : Env.read? env "len(u64s)" = some (.int (n : Int))) :
+    execFromW (wideFloatWorld l) (f + 5) (decF64With L) env [] =
+      seqKW (wideFloatWorld l) (f + 3) .ret
+        (execFromW (wideFloatWorld l) (f + 1) L
+          (Env.write (Env.write (Env.write env "u64s" (.sym "u64s")) "#len(u64s)" (.int (n : Int))) "#i" (.int 0))
+          [("bytesToUint64s", [.int e, .int w, .sym "in"])]) := by
+  simp only [decF64With, execFromW_seq, execFromW_bindCall, execFromW_assign, panics_lit, panics_var, eval_lit,
+    eval_var, eval_var_some, h1, h2, h3, h4, read?_write, String.reduceEq, seqKW_fell, Bool.false_eq_true, ↓reduceIte,
+    List.any_cons, List.any_nil, Bool.or_self, List.map, wideFloatWorld_dec64, callK_some, bindAll_cons, bindAll_nil,
+    List.headD_cons, List.nil_append]
 
 end Modbus.GoEval
